@@ -178,7 +178,7 @@ func init() {
 							doc = doc[i+3:]
 						}
 					}
-					addRule(p, &core.Rule{ID: p + suffix, Floor: r.Floor, Thorough: r.Thorough, Run: r.Run,
+					addRule(p, &core.Rule{ID: p + suffix, Floor: r.Floor, Thorough: r.Thorough, Late: r.Late, Run: r.Run,
 						Doc: "Shared with " + ls.from + " (" + ls.why + "): " + doc})
 				}
 			}
@@ -208,7 +208,7 @@ func init() {
 			if dup {
 				continue
 			}
-			addRule(p, &core.Rule{ID: p + suffix, Floor: r.Floor, Thorough: r.Thorough, Run: r.Run,
+			addRule(p, &core.Rule{ID: p + suffix, Floor: r.Floor, Thorough: r.Thorough, Late: r.Late, Run: r.Run,
 				Doc: "Shared with " + s.from[:3] + " (" + s.why + "): " + r.Doc})
 		}
 	}
